@@ -139,6 +139,12 @@ def main(argv):
     from . import findings
     mod = importlib.import_module("vf.harness." + prop)
     insts = list(mod.instances(tier))
+    # the budgets in the harness modules are about twice the CPU time measured on the development machine; they are caps
+    # (an instance ends when its tree is exhausted), so a slower or busier machine gets head-room instead of inconclusives
+    scale = float(os.environ.get("VERIF_BUDGET_SCALE", "2.5" if tier == "quick" else "1.5"))
+    for i in insts:
+        i.budget = float(i.budget) * scale
+        i.path_timeout = float(i.path_timeout) * min(scale, 2.0)
     if only:
         insts = [i for i in insts if only in i.ident]
     # VERIF_SEED only permutes the launch order
